@@ -89,6 +89,7 @@ inductive Op where
   | reject (k : Nat) (code : Int)
   | dropPending (k : Nat)
   | send (k p : Nat)
+  | sendResume (k p : Nat)          -- a send parked on a full queue is resumed (room appeared / queue closed)
   | cloneSink (k : Nat)
   | dropSink (k : Nat)
   | isClosed (k : Nat)
@@ -164,6 +165,12 @@ def putConn (st : State) (c : Nat) (cn : Conn) : State :=
 /-- does the subscription hold a permit of its connection? -/
 def Sub.holds (s : Sub) : Bool := s.phase == .pending || s.clones > 0
 
+/-- Methods registered with `register_subscription_raw` (rpc_module.rs:924-976; harness: method
+index ≥ 2): the callback is called synchronously, there is no handler future and no task that would
+send a closing notification — the return value is discarded.  Modelled as "handler and task already
+finished" from the start. -/
+def rawMeth (m : Nat) : Bool := m ≥ 2
+
 def doSubscribe (st : State) (c m rid sid : Nat) : State × Out :=
   match st.conns[c]? with
   | none => (st, .bad)
@@ -173,7 +180,8 @@ def doSubscribe (st : State) (c m rid sid : Nat) : State × Out :=
       if cn.hasRoom then (putConn st c (cn.push (.err rid tooManyCode)), .refused) else (st, .blocked)
     else
       ({ conns := st.conns.set c { cn with permitsFree := cn.permitsFree - 1 },
-         subs := st.subs ++ [{ conn := c, meth := m, subId := sid, reqId := rid }] }, .pending sid)
+         subs := st.subs ++ [{ conn := c, meth := m, subId := sid, reqId := rid,
+                               handlerDone := rawMeth m, taskDone := rawMeth m }] }, .pending sid)
 
 /-- the key of the method's `Subscribers` table: (connection id, subscription id) -/
 def sameKey (c m x : Nat) (s : Sub) : Bool := s.conn == c && s.meth == m && s.subId == x
@@ -212,6 +220,19 @@ def doSend (st : State) (k p : Nat) : State × Out :=
   | some (s, cn) =>
     if s.clones == 0 then (st, .nosink)
     else if !cn.isOpen || !s.inTable then (st, .err)
+    else if !cn.hasRoom then (st, .blocked)
+    else (put st k { s with produced := s.produced ++ [p] } (cn.push (.data s.meth s.subId p)), .ok)
+
+/-- The completion of a send that was parked on a full queue (`tx.send(..).await` inside
+`SubscriptionSink::send` after the closed check had passed): the frame is enqueued when room
+appears — whatever happened to the table entry meanwhile, the send *started before* — or the send
+fails because the connection's queue was closed while it waited. -/
+def doSendResume (st : State) (k p : Nat) : State × Out :=
+  match lookup st k with
+  | none => (st, .bad)
+  | some (s, cn) =>
+    if s.clones == 0 then (st, .nosink)
+    else if !cn.isOpen then (st, .err)
     else if !cn.hasRoom then (st, .blocked)
     else (put st k { s with produced := s.produced ++ [p] } (cn.push (.data s.meth s.subId p)), .ok)
 
@@ -342,6 +363,7 @@ def step (st : State) : Op → State × Out
   | .reject k code => doRefuse st k code .rejected
   | .dropPending k => doRefuse st k internalCode .dropped
   | .send k p => doSend st k p
+  | .sendResume k p => doSendResume st k p
   | .cloneSink k => doClone st k
   | .dropSink k => doDropSink st k
   | .isClosed k => doIsClosed st k
